@@ -10,7 +10,11 @@
   * `k_ac`      — associativity / commutativity normal form of `+`, `*`, `min`, `max` on ℕ
                   (both sides of an equation reach the same normal form iff they are AC-equal);
   * `k_close`   — closes a leaf goal: reflexivity, AC-normalisation, linear arithmetic over the
-                  (normalised) nonlinear atoms, or contradiction between the branch conditions.
+                  (normalised) nonlinear atoms, or contradiction between the branch conditions;
+  * `k_defs [d₁, d₂, h, …]` — unfolds the listed definitions (translated source functions, their
+                  translated callees, model operations) and rewrites with the listed equations
+                  together with the monad plumbing.  Unlike `unfold d₁ d₂` it does not fail when one of
+                  them does not occur (a callee that a refactor inlined, a constant that is no longer used).
 -/
 import MxModel.Gen.Prelude
 import Mathlib.Tactic.SplitIfs
@@ -25,8 +29,19 @@ theorem ite_none_some_bind {α β : Type} {c : Prop} [Decidable c] (a : α) (f :
 
 macro "k_unfold" : tactic => `(tactic|
   simp only [sub?, div?, mod?, req, Option.bind_eq_bind, Option.pure_def, Option.bind_some,
-    Option.bind_none, ite_some_none_bind, ite_none_some_bind, gt_iff_lt, ge_iff_le, decide_eq_true_eq, Bool.false_eq_true, if_false, if_true,
-    Bool.not_eq_true])
+    Option.bind_none, Option.map_some, Option.map_none, ite_some_none_bind, ite_none_some_bind,
+    gt_iff_lt, ge_iff_le, decide_eq_true_eq, Bool.false_eq_true, if_false, if_true, Bool.not_eq_true,
+    true_and, and_true, false_and, and_false, true_or, or_true, false_or, or_false, not_true_eq_false,
+    not_false_eq_true])
+
+syntax "k_defs" "[" Lean.Parser.Tactic.simpLemma,* "]" : tactic
+macro_rules
+  | `(tactic| k_defs [$ls,*]) => `(tactic|
+      simp only [$ls,*, sub?, div?, mod?, req, Option.bind_eq_bind, Option.pure_def, Option.bind_some,
+        Option.bind_none, Option.map_some, Option.map_none, ite_some_none_bind, ite_none_some_bind,
+        gt_iff_lt, ge_iff_le, decide_eq_true_eq, Bool.false_eq_true, if_false, if_true,
+        Bool.not_eq_true, true_and, and_true, false_and, and_false, true_or, or_true, false_or,
+        or_false, not_true_eq_false, not_false_eq_true])
 
 macro "k_ac" : tactic => `(tactic|
   simp only [Nat.mul_comm, Nat.mul_left_comm, Nat.mul_assoc, Nat.add_comm, Nat.add_left_comm,
@@ -43,11 +58,14 @@ macro "k_close" : tactic => `(tactic| first
   | (k_ac_all <;> first | rfl | omega | (simp_all; done))
   | (simp_all; done)
   | (exfalso; simp_all; omega)
-  | (simp_all; omega))
+  | (simp_all; omega)
+  | (k_ac_all; simp_all; done)
+  | (k_ac_all; exfalso; simp_all; omega)
+  | (k_ac_all; simp_all; omega))
 
 /-- unfold, split every `if`, close every leaf -/
 macro "k_solve" : tactic => `(tactic| (
-  repeat' (first | k_unfold | split_ifs)
+  repeat' (first | k_unfold | split)
   all_goals k_close))
 
 end Mx
